@@ -794,7 +794,10 @@ pub fn process_request(input: &str, dbs: &Arc<Databases>, client: &mut Client) -
     );
     let db_name_state = client.selected_db_name();
     let start = Instant::now();
-    let request = match Request::parse(String::from(input).trim_matches('\n')) {
+    // A command is one line: line feeds inside it are dropped like the ones at its two ends (a key
+    // carrying one was copied into the line-based replication text, where the rest of the line ran
+    // as a command of its own - with the peer's rights - on the node that received it)
+    let request = match Request::parse(&String::from(input).replace("\n", "")) {
         Ok(req) => req,
         Err(e) => return Response::Error { msg: e },
     };
